@@ -142,3 +142,17 @@ Ltac low8 m :=
 (* executable hand copies of IsZero / IsInvalid for the correspondence runner *)
 Definition is_zero (m : N) : bool := m =? ModeNone.
 Definition is_invalid (m : N) : bool := m =? ModeInvalid.
+
+(* Sys/Fanout.v (C02, C01, C04 fan-out slices) tests permissions as `has m bX` *)
+From Tinode Require Sys.Fanout.
+Lemma fanout_has_spec : forall m,
+  Fanout.has m Fanout.bJ = spec_joiner m /\ Fanout.has m Fanout.bR = spec_reader m /\ Fanout.has m Fanout.bW = spec_writer m /\
+  Fanout.has m Fanout.bP = spec_presencer m /\ Fanout.has m Fanout.bA = spec_approver m /\ Fanout.has m Fanout.bS = spec_share_bit m /\
+  Fanout.has m Fanout.bD = spec_deleter m /\ Fanout.has m Fanout.bO = spec_owner m.
+Proof.
+  intro m. unfold Fanout.has, spec_joiner, spec_reader, spec_writer, spec_presencer, spec_approver, spec_share_bit,
+    spec_deleter, spec_owner.
+  change Fanout.bJ with (2 ^ 0). change Fanout.bR with (2 ^ 1). change Fanout.bW with (2 ^ 2). change Fanout.bP with (2 ^ 3).
+  change Fanout.bA with (2 ^ 4). change Fanout.bS with (2 ^ 5). change Fanout.bD with (2 ^ 6). change Fanout.bO with (2 ^ 7).
+  rewrite !bit_test_ne0. repeat split; reflexivity.
+Qed.
